@@ -34,6 +34,75 @@ class Profile:
         self.caps, self.classes, self.pars, self.strategies, self.n, self.extra = caps, classes, pars, strategies, n, extra
 
 
+# ---- window sweeps: small race templates x "freeze thread t right after its k-th event of kind K" ------------------
+# Each template is a program body that sets up one race the properties talk about (a deadline against a close, a
+# re-poll with another waker against a hand-off, a future's drop against the peer that claimed it, ...).  The sweep
+# runs it once per (thread, event kind, k): that thread is frozen right after its k-th event of that kind while the
+# others run on, and comes back when nobody else can move - a systematic exploration of every single-preemption
+# schedule of the template at the granularity of the facade events.
+WINDOW_TEMPLATES = {
+    # timed waiters against close / disconnect / a peer (caps: 0 = rendezvous; 1 = full buffer for the senders)
+    "timed-send-close":   ("0",  ["sendt 1 300", "close s"]),
+    "timed-send-close-r": ("0",  ["sendot 1 300", "close r"]),
+    "timed-send-disc":    ("0",  ["drop r;sendt 1 300", "drop r"]),
+    "timed-sendo-disc":   ("0",  ["drop r;sendot 1 300", "drop r"]),
+    "timed-send-peer":    ("0",  ["sendt 1 300", "recv"]),
+    "timed-sendo-peer":   ("0",  ["sendot 1 300", "tryr 0;tryr 0"]),
+    "timed-recv-close":   ("0",  ["recvt 300", "close s"]),
+    "timed-recv-disc":    ("0",  ["drop s;recvt 300", "drop s"]),
+    "timed-recv-peer":    ("0",  ["recvt 300", "send 31"]),
+    "timed-recv-try":     ("1",  ["recvt 300", "try 31 0 0;try 32 0 0"]),
+    # a pending future ahead of a timed sender: close / last-receiver drop has work to do under the lock
+    "slow-close":         ("0",  ["asend 0 1;polls 0 1", "sendt 31 300", "close s"]),
+    "slow-disc":          ("0",  ["drop r;asend 0 1;polls 0 1", "drop r;sendot 31 300", "drop r"]),
+    # futures: re-poll with another waker / drop, against a peer or a close
+    "repoll-recv-close":  ("0",  ["arecv 0;pollr 0 1;pollr 0 2;pollr 0 2", "close s"]),
+    "repoll-recv-disc":   ("0",  ["drop s;arecv 0;pollr 0 1;pollr 0 2;pollr 0 2", "drop s"]),
+    "repoll-recv-peer":   ("0",  ["arecv 0;pollr 0 1;pollr 0 2;pollr 0 2", "send 31"]),
+    "repoll-send-close":  ("0",  ["asend 0 1;polls 0 1;polls 0 2;polls 0 2", "close r"]),
+    "repoll-send-peer":   ("0",  ["asend 0 1;polls 0 1;polls 0 2;polls 0 2", "recv"]),
+    "drop-recv-peer":     ("0",  ["arecv 0;pollr 0 1;droprf 0", "try 31 0 0"]),
+    "drop-send-peer":     ("0",  ["asend 0 1;polls 0 1;dropsf 0", "tryr 0"]),
+    "drop-recv-close":    ("0",  ["arecv 0;pollr 0 1;droprf 0", "close s"]),
+    "drop-send-close":    ("0",  ["asend 0 1;polls 0 1;dropsf 0", "close r"]),
+    "stream-rewait":      ("0",  ["stream 0;pollr 0 1;pollr 0 1;pollr 0 2;pollr 0 2", "send 31;send 32"]),
+    # buffer refill and drain against a third party
+    "refill-race":        ("1",  ["send 1;send 2", "recv", "try 61 0 0;len s"]),
+    "refill-race-t":      ("1",  ["send 1;send 2", "recvt 100000", "try 61 0 0;len s"]),
+    "drain-race":         ("0",  ["send 1", "send 31", "drain 0"]),
+    "drain-grow":         ("2",  ["send 1;send 2;send 3", "drain 0", "try 61 0 0"]),
+    # blocked sync waiters released by close / last drop
+    "park-close":         ("0",  ["recv", "close r"]),
+    "park-disc":          ("0",  ["drop r;send 1", "drop r"]),
+    "park-disc-r":        ("0",  ["drop s;recv", "drop s"]),
+    # observers against a send+drop
+    "observe":            ("u",  ["drop s;isterm r;tryr 0", "send 31;drop s"]),
+    "two-close":          ("1",  ["try 1 0 0;close s", "close r;len r"]),
+}
+WINDOW_KINDS = ("lock", "unlock", "ld", "st", "cas", "now", "wclone", "pwrite", "pread", "park")
+
+
+class SweepProfile(Profile):
+    """Programs are not drawn at random: every template x payload class x (thread, kind, k)."""
+    def __init__(self, name, templates, classes=("w", "p"), kinds=WINDOW_KINDS, ks=(1, 2, 3, 4, 6), pars=("4",), extra="tickp=30"):
+        Profile.__init__(self, name, {}, n=0, extra=extra)
+        self.programs = []
+        i = 0
+        for tn in templates:
+            cap, threads = WINDOW_TEMPLATES[tn]
+            for t in range(len(threads)):
+                for kind in kinds:
+                    for k in ks:
+                        i += 1
+                        par = pars[i % len(pars)]
+                        cls = classes[i % len(classes)]
+                        hdr = f"cap={cap} class={cls} par={par} seed={1000 + i} strategy=after:{kind}:{k}:t{t} base=random {extra}".strip()
+                        body = "\n".join(f"t{j}: {ops}" for j, ops in enumerate(threads))
+                        self.programs.append(f"# window {tn}\n{hdr}\n{body}\n")
+        self.n = len(self.programs)
+        self.threads = (2, 3)
+
+
 def expand(macro, t, k, rng):
     """A macro-op of thread t (its k-th) as concrete op text(s)."""
     m = t * 30 + k + 1            # message tag (< 256: the 1-byte payload class carries it in a u8)
@@ -65,6 +134,8 @@ def expand(macro, t, k, rng):
 
 
 def gen_program(profile, rng, idx):
+    if hasattr(profile, "programs"):
+        return profile.programs[idx]
     nt = rng.randint(*profile.threads)
     cap = rng.choice(profile.caps)
     cls = rng.choice(profile.classes)
